@@ -2,7 +2,7 @@
    Property theorems only + non-vacuity.  Model: Model/DECache.v (matrix-entry cache old_R) on top of Model/Gram.v. *)
 From Coq Require Import ZArith List QArith Qcanon Bool Lia.
 From SG Require Import Base.QcUtil Model.Gram Model.DECache Model.DEReuse
-  Proofs.GramHat Proofs.GramEntries Proofs.GramPD Proofs.GramNorm Proofs.DECacheP Proofs.DEPaths Proofs.DEReuseP Proofs.DEInterpP Proofs.DEUniform Proofs.DEUniformInterp.
+  Proofs.GramHat Proofs.GramEntries Proofs.GramPD Proofs.GramNorm Proofs.DECacheP Proofs.DEPaths Proofs.DEReuseP Proofs.DEInterpP Proofs.DEUniform Proofs.DEUniformInterp Proofs.DEPointList.
 Import ListNotations.
 Open Scope Qc_scope.
 
@@ -107,6 +107,22 @@ Theorem C17_interp_uniform_large_path_equals_small_path : forall lv alphas pts,
   interp_large (map uniform_stripe lv) alphas pts = map (interp_uniform lv alphas) pts.
 Proof. exact interp_large_uniform_eq_small. Qed.
 Print Assumptions C17_interp_uniform_large_path_equals_small_path.
+
+(* TWO LIST EXPRESSIONS of the code that Model/DEReuse.v writes in another shape, proved equal to that shape:
+   old_point_list (cross product of the stored stripes, which contain the domain boundary, filtered by
+   `0.0 not in x and 1.0 not in x`) is the list of grid points in the order of the stored right-hand side; *)
+Theorem C17_old_point_list_is_grid_points : forall stripes, Forall good_stripe stripes ->
+  old_point_list_py stripes = map (map h_p) (grid_hats stripes).
+Proof. exact old_point_list_is_grid_points. Qed.
+Print Assumptions C17_old_point_list_is_grid_points.
+
+(* np.intersect1d (np.unique = sort + drop repetitions, then keep the common values) iterated over the index slices of the
+   dimensions is the ascending list of the sample indices that occur in every slice (index arrays with entries below M) *)
+Theorem C17_intersect1d_is_gather : forall M slices, slices <> [] ->
+  (forall sl, In sl slices -> forall x, In x sl -> (x < M)%nat) ->
+  domain_data_py slices = filter (fun k => forallb (mem_nat k) slices) (seq 0 M).
+Proof. exact domain_data_py_is_gather. Qed.
+Print Assumptions C17_intersect1d_is_gather.
 
 (* NOT modelled: the re-use branch of calculate_B (uniform grids); it is unreachable through StandardCombi because only
    calculate_B_dimension_wise fills new_B (reuse on / off runs of StandardCombi are compared on every run). *)
@@ -216,3 +232,8 @@ Proof.
   split; [exact H1|]. split; [exact H2|]. split; [apply C17_interp_uniform_large_path_equals_small_path; assumption|].
   apply Qc_is_canon. vm_compute. reflexivity.
 Qed.
+
+Example C17_list_expressions_nonvacuous :
+  old_point_list_py [[q 0 1; q 1 4; q 1 2; q 1 1]; [q 0 1; q 1 2; q 1 1]] = [[q 1 4; q 1 2]; [q 1 2; q 1 2]] /\
+  domain_data_py [[3; 0; 2; 0]; [2; 5; 0]; [0; 2; 2; 4]]%nat = [0; 2]%nat.
+Proof. split; vm_compute; reflexivity. Qed.
